@@ -23,7 +23,81 @@ fn doc_uri(i: usize) -> String {
     format!("file:///nonexistent-glas-sim/c13/d{i}.gleam")
 }
 
+/// Systematic workload: one small document, EVERY valid (start, end) pair, every replacement of a
+/// small set; each incremental edit is preceded by a full-text reset to the base document. This
+/// is input enumeration under the simulator's transport and main loop, claimed only as part of
+/// the exploration.
+fn gen_sweep_session(seed: u64, run: u64) -> Session {
+    let mut rng = Rng::new(mix(mix(seed, run), 1313));
+    let hash_seed = rng.next();
+    let base = {
+        let mut t = gen_text(&mut rng, 6);
+        if t.is_empty() {
+            t = "a\r\n💣ß".to_string();
+        }
+        t
+    };
+    let uri = doc_uri(0);
+    let m = DocModel { text: base.clone() };
+    // all valid positions
+    let mut positions: Vec<[u32; 2]> = Vec::new();
+    for (li, (s, e, _)) in m.lines().iter().enumerate() {
+        let mut units = 0u32;
+        positions.push([li as u32, 0]);
+        for c in m.text[*s..*e].chars() {
+            units += c.len_utf16() as u32;
+            positions.push([li as u32, units]);
+        }
+    }
+    const REPL: &[&str] = &["", "x", "\n", "\r\n", "ß", "💣", "a\nb"];
+    let mut ops = preamble(None);
+    ops.push(PlannedOp::new(Op::Open { uri: uri.clone(), text: base.clone() }));
+    ops.push(PlannedOp::new(Op::ProbeText { uri: uri.clone() }));
+    for (i, a) in positions.iter().enumerate() {
+        for b in positions.iter().skip(i) {
+            for r in REPL {
+                let mut p = PlannedOp::new(Op::Change {
+                    uri: uri.clone(),
+                    edits: vec![
+                        Edit { range: None, text: base.clone() },
+                        Edit { range: Some([a[0], a[1], b[0], b[1]]), text: r.to_string() },
+                    ],
+                });
+                p.tags = vec!["sweep.single_edit".into()];
+                if base.contains('\r') || r.contains('\r') {
+                    p.tags.push("doc.has_crlf".into());
+                }
+                if base.chars().any(|c| c.len_utf8() > 1) || r.chars().any(|c| c.len_utf8() > 1) {
+                    p.tags.push("doc.has_multibyte".into());
+                }
+                ops.push(p);
+                ops.push(PlannedOp::new(Op::ProbeText { uri: uri.clone() }));
+            }
+        }
+    }
+    ops.push(PlannedOp::new(Op::Barrier));
+    Session {
+        property: "C13".into(),
+        seed,
+        run,
+        hash_seed,
+        concurrency: 4,
+        gran: Granularity::Coarse,
+        policy: "sequential".into(),
+        sequential: true,
+        root: String::new(),
+        tree: Vec::new(),
+        ops,
+        crashes: Vec::new(),
+        decisions: None,
+        meta: json!({"sweep": true, "base": base}),
+    }
+}
+
 pub fn gen_session(seed: u64, run: u64, thorough: bool) -> Session {
+    if run % (if thorough { 10 } else { 50 }) == 7 {
+        return gen_sweep_session(seed, run);
+    }
     let mut rng = Rng::new(mix(mix(seed, run), 13));
     let hash_seed = rng.next();
     let ndocs = if rng.chance(1, 4) { 2 } else { 1 };
@@ -148,6 +222,7 @@ pub struct Stats {
     pub probes_checked: u64,
     pub edits_applied: u64,
     pub syntax_tree_crosschecks: u64,
+    pub sweep_edits: u64,
     pub nontrivial: bool,
     pub kind_key: String,
 }
@@ -238,14 +313,20 @@ pub fn check(s: &Session, h: &History, stats: &mut Stats) -> Option<Violation> {
             }
         }
     }
+    if s.meta["sweep"].as_bool() == Some(true) {
+        stats.sweep_edits = s.ops.iter().filter(|p| matches!(p.op, Op::Change { .. })).count() as u64;
+    }
     kinds_seen.sort();
     stats.nontrivial = kinds_seen.iter().any(|k| k.contains("multibyte") || k.contains("astral") || k.contains("crlf"));
-    stats.kind_key = s
-        .ops
-        .iter()
-        .filter(|p| matches!(p.op, Op::Change { .. }))
-        .map(|p| p.tags.join("+"))
-        .collect::<Vec<_>>()
-        .join("|");
+    stats.kind_key = if s.meta["sweep"].as_bool() == Some(true) {
+        format!("sweep:{}", s.meta["base"])
+    } else {
+        s.ops
+            .iter()
+            .filter(|p| matches!(p.op, Op::Change { .. }))
+            .map(|p| p.tags.join("+"))
+            .collect::<Vec<_>>()
+            .join("|")
+    };
     None
 }
